@@ -2,6 +2,10 @@ import BadgerProofs.Props.C27
 /-!
 # C27 — the side condition `Buf.NoClash` in terms of the operation history
 
+(`Buf.NoClash` is the condition under which the emission order BEFORE badger commit 2dbbdab was
+harmless — finding F8; today's order needs no side condition, see `C27_last_wins`. The
+characterisations of `pendingWrites` / `duplicateWrites` below hold for today's `Txn.modify`.)
+
 `Buf.addAll {} ops` is the buffer (`pendingWrites`, `duplicateWrites`) of one internal transaction
 after the operations `ops` (`Txn.modify` each). This file characterises both lists by the history:
 
@@ -16,7 +20,7 @@ namespace Badger
 /-- the last operation on key `k` -/
 def lastOn (ops : List Ent) (k : Bytes) : Option Ent := ops.reverse.find? (·.key == k)
 
-/-- the side condition of C27 in terms of the history of one internal transaction: whenever an operation `d`
+/-- the side condition of the old emission order in terms of the history of one internal transaction: whenever an operation `d`
     on a key is directly followed, among the operations on that key, by an operation `e'` with a different
     (raw) version, the resolved version of `d` differs from the resolved version of the key's last operation -/
 def HistNoClash (cts : Nat) (ops : List Ent) : Prop :=
